@@ -48,8 +48,11 @@ THEOREMS_DOC = {
     "C20_retry_after_fail": "a failed dial sleeps reconnect_timeout",
     "C20_retry_timing": "unless disconnect()/stop(): the next attempt happens exactly when the sleep ends, not before, whatever happens meanwhile",
     "C20_quiet_after_stop_sync": "threaded: after stop() no callback, attempt, write or close, for every continuation",
-    "C20_quiet_after_stop_async_partial": "asyncio: same, once a first link has been established",
-    "C20_quiet_after_stop_async_refuted": "asyncio: stop() during the initial `await start()` dial loop does not end it (attempt at +rt)",
+    "C20_quiet_after_stop_async": "asyncio: the same statement at the same strength, from any invariant state - including stop() during the first connect loop of `await start()` (D21 repaired: the loop tests transport.protocol and ends)",
+    "C20_after_stop_at_most_one_sleep": "all flavours, exact form: after stop() the outputs of any continuation are [] or the single Sleep rt of the dial that was in flight",
+    "C20_no_output_after_stop_async_connected": "asyncio, once a first link has been established (later dial loops are connect_task, cancelled by stop()): no output at all",
+    "C20_quiet_after_stop_async_unfixed_refuted": "HISTORY D21: with the pre-repair loop header `while True:` (loop-test flags false) stop() during the first connect loop does not end it (attempt at +rt)",
+    "C20_stop_ends_first_connect_loop": "the D21 history on the current code: stop, failed dial, rt later: one sleep, no attempt, loop ended",
     "C20_watchdog_sync_tick": "threaded TCP: a Tick drops/probes/idles exactly as wd_check says; a drop closes, reports exc and re-dials at once",
     "C20_watchdog_async_timer": "asyncio TCP: same at each call_later firing (on_conn_lost(None)), re-armed rt+slack later",
     "C20_watchdog_timely_safe": "polls <= delta apart and answers processed within rt - delta of each probe: never dropped (any schedule)",
@@ -485,7 +488,7 @@ def plan(ctx):
 CORPUS = [
     ("atcp", ("ok", "pclose", "t1100", "t1100")),            # D13
     ("aser", ("ok", "pclose", "t1100")),
-    ("atcp", ("stop", "fail", "t1100")),                     # stop during the initial dial
+    ("atcp", ("stop", "fail", "t1100")),                     # D21 (repaired): stop during the initial dial
     ("aser", ("stop", "fail", "t1100", "ok")),
     ("atcp", ("ok", "t1100", "ans", "t1100", "t1100", "t1100")),
     ("stcp", ("ok", "t600", "ans", "pclose", "t1100", "fail", "t512", "ok")),
